@@ -1,6 +1,6 @@
 use super::SoapBinding;
 use crate::{
-    error::WriterResult,
+    error::{WriterError, WriterResult},
     model::{
         Namespace,
         field::as_field_name,
@@ -110,7 +110,7 @@ where
         for (part_name, header) in &soap_operation.headers {
             let field_name = as_field_name(part_name);
             // the header element is the one the part refers to: its own name on the wire, its struct as type
-            let xml_name = header.rust_type.xml_name().expect("xml_name not found");
+            let xml_name = header.rust_type.xml_name().ok_or(WriterError::InvalidReference)?;
             let rust_type = to_pascal_case(xml_name);
 
             if let Some(namespace) = header.in_namespace.as_ref() {
@@ -146,7 +146,7 @@ where
         write_check_restrictions_footer(writer)?;
     }
 
-    let xml_name = soap_operation.body.rust_type.xml_name().expect("xml_name not found");
+    let xml_name = soap_operation.body.rust_type.xml_name().ok_or(WriterError::InvalidReference)?;
     let body_field_name = as_field_name(&to_snake_case(xml_name));
     // the struct generated for the body element is named in PascalCase
     let body = to_pascal_case(xml_name);
